@@ -198,6 +198,10 @@ def add_api_ops(ops, n_solvers, rng):
         if op[0] == "solve" and rng.random() < 0.6:
             kind = rng.choice(["check", "check", "parse", "repair", "mutate", "check_mut", "parse_mut", "repair_mut", "check_tree", "check_tree"])
             out.append([kind, op[1], rng.randrange(1 << 30)])
+    # words of the language derived by the harness itself (members by construction):
+    # the parser must accept them, check/parse must agree with the semantics
+    for _ in range(rng.randint(2, 7)):
+        out.append([rng.choice(["check_word", "parse_word", "parse_word"]), rng.randrange(n_solvers), rng.randrange(1 << 30)])
     return out
 
 
